@@ -73,6 +73,29 @@ def run(ctx):
     ctx.floor("M-AUDIT", "message parse/accessor roots", len(rs), 20)
     panics.audit(ctx, f, rs, "M-AUDIT", crates=CRATES, edge_ok=edge_ok(f))
     m_len(ctx, f)
+    m_valid(ctx, f)
+
+
+def m_valid(ctx, f):
+    """M-VALID (added after seeded change C12b): FieldPos::read re-validates the cached header fields with `expect`
+    (table line "validated when the header was parsed"). That assumption is the decode path of the header fields:
+    they are decoded as dynamic `Value`s, so the visitors that build Value::ObjectPath / Value::Signature from wire
+    strings must use validating constructors — an `*_unchecked` constructor there lets an invalid PATH field through
+    parsing and `Message::header()` then panics."""
+    n = 0
+    for b in f.all_bodies("zvariant"):
+        if not ((b.d.get("impl_adt") or "").endswith("value::ValueSeed") and (b.d.get("impl_trait") or "").endswith("de::Visitor")):
+            continue
+        if b.root != b.id and f.bodies.get(b.root) is None:
+            continue
+        for c in mir.calls(b):
+            n += 1
+            if c.callee.rsplit("::", 1)[-1].endswith("_unchecked") and ("ObjectPath" in c.callee or "Signature" in c.callee or "Str" in c.callee):
+                ctx.ob("M-VALID", "%s:%s" % (b.name, c.callee.rsplit("::", 2)[-2] + "::" + c.callee.rsplit("::", 1)[-1]), False,
+                       "header field values are decoded through ValueSeed::%s, which builds its value with %s: an invalid string in a "
+                       "PATH/SIGNATURE field is accepted at parse time and FieldPos::read's expect() panics later" % (b.name, c.callee), c.where)
+    ok_n = ctx.floor("M-VALID", "calls inspected in ValueSeed's visitor methods", n, 5)
+    ctx.ob("M-VALID", "ValueSeed-visitors-validate", True, "no *_unchecked constructor in ValueSeed's string visitors", "zvariant/src/value.rs")
 
 
 def m_len(ctx, f):
